@@ -19,6 +19,17 @@ CLAIMED = {
    note=("trusted: Lean kernel + propext/Classical.choice/Quot.sound; the hand-written model (Model/Ty,Eqv,Infer) is tied to the code only by "
          "correspondence on generated cases; the order/multiplicity clause is checked on implementation and model, not yet proved (partial)"),
    technique="Lean 4 proof (structural + well-founded induction) over a hand-written model + differential correspondence check"),
+ "C06": dict(
+   text=("Lean 4 theorems: every TypedDict node inside get_type(v,k), inside any merge of inferred types and inside infer k vs has between 1 "
+         "and k keys (MT.C06.getType_bound/shrink_bound/infer_bound), so none exists at k=0 (limit_zero_no_typed_dict); a value becomes a "
+         "TypedDict iff it is a non-empty exact dict with all-string keys and at most k of them (typed_dict_iff); the mixed-shape rewrite "
+         "leaves no TypedDict. Tied to /repo by differential testing of get_type/shrink_types against the model and of the Lean size "
+         "predicate against an independent Python walk; the store round trip and the rendered TypedDict class stubs are checked on the "
+         "real code for every generated case."),
+   ref="DESIGN.md section 4 C06",
+   note=("trusted: Lean kernel + standard axioms; hand-written model tied by correspondence on generated cases; the JSON round trip and "
+         "ReplaceTypedDictsWithStubs clauses are observed on the implementation (direct oracle), not yet modelled (partial)"),
+   technique="Lean 4 proof (invariant by well-founded induction) over a hand-written model + differential correspondence check"),
 }
 
 NOT_YET = "check not built yet (build in progress; see DESIGN.md section 10)"
